@@ -613,8 +613,8 @@ def rule_r5(prog, res) -> None:
                 res.ok("C09.R5", res.site(fi, "chkfinite"), "chunks of user data are created with the finite check on" + ("" if given is not None else " (default)"), nontrivial=False)
             else:
                 res.violation("C09.R5", fi, c, f"{fi.qualname} creates chunks of user data with chkfinite={unparse(eff) if eff is not None else 'unset'}" + ("" if given is not None else " (the default of DataChunk.create)") + ": NaN / infinite coordinates, weights and redshifts are stored instead of being rejected", key_extra=f"chkfinite-off-{fi.qualname}")
-    if n_calls < 3:
-        raise AnalysisError(f"C09.R5: only {n_calls} DataChunk.create calls found in the readers, minimum 3")
+    if n_calls < 1:
+        raise AnalysisError("C09.R5: no DataChunk.create call found in the readers")
     # (c) check_patch_ids raises on both sides of the range, for the ids AS GIVEN: decided on the symbolic paths —
     # the raising decision is folded for ids below, inside and above the range, and the compared array must not have
     # been narrowed to the storage type before (a wrapped value passes any range check)
@@ -882,30 +882,45 @@ def rule_r9(prog, res) -> None:
     cfg = cfg_of(fin.node)
     publish = [n for n in cfg.nodes if any(isinstance(c.func, ast.Attribute) and c.func.attr in ("replace", "rename") for c in n.calls())]
     if not publish:
+        # … or in a helper of another shape that finalize calls: the call that (transitively) renames a file
+        S_ = summaries(prog)
+        publish = [n for n in cfg.nodes if any(e.kind == "fs" and e.op in ("rename", "replace") for e, _f in S_.node_may(cw.methods["finalize"], n))] if fin is cw.methods["finalize"] else []
+        if not publish:
+            publish = [n for n in cfg.nodes if any(any(any(e.kind == "fs" and e.op in ("rename", "replace") for e, _f in S_.may(t)) for t in prog.resolve_call(fin, c).funcs()) for c in n.calls())]
+    if not publish:
         raise AnalysisError("C09.R9: publication of the patch id list (rename / replace) not found in finalize")
-    tests = [x for x in ast.walk(fin.node) if isinstance(x, ast.If) and any(isinstance(y, ast.Attribute) and y.attr in ("num_processed", "num_records") for y in ast.walk(x.test))]
+    counts_ = lambda e: any(isinstance(y, ast.Attribute) and y.attr in ("num_processed", "num_records") for y in ast.walk(e))  # noqa: E731
+    # (test expression, statement that carries it, statements of its true-branch, names of containers it fills)
+    tests = [(x.test, x, x.body, None) for x in ast.walk(fin.node) if isinstance(x, ast.If) and counts_(x.test)]
+    for x in ast.walk(fin.node):
+        # a filtering comprehension: empty = {pid for pid, w in writers.items() if w.num_processed == 0}
+        if isinstance(x, ast.Assign) and len(x.targets) == 1 and isinstance(x.targets[0], ast.Name) and isinstance(x.value, (ast.SetComp, ast.ListComp, ast.DictComp, ast.GeneratorExp)):
+            for g in x.value.generators:
+                for cnd in g.ifs:
+                    if counts_(cnd):
+                        tests.append((cnd, x, [], [x.targets[0].id]))
     good = None
     why = "finalize does not test the record count of the patch writers"
-    for t in tests:
-        cnt = next(y for y in ast.walk(t.test) if isinstance(y, ast.Attribute) and y.attr in ("num_processed", "num_records"))
+    for test, carrier, body, filled in tests:
+        cnt = next(y for y in ast.walk(test) if isinstance(y, ast.Attribute) and y.attr in ("num_processed", "num_records"))
         try:
-            fires_for_empty = bool(ceval(t.test, {unparse(cnt): 0})) and not bool(ceval(t.test, {unparse(cnt): 5}))
+            fires_for_empty = bool(ceval(test, {unparse(cnt): 0})) and not bool(ceval(test, {unparse(cnt): 5}))
         except Unknown:
             continue
         if not fires_for_empty:
-            why = f"the test `{unparse(t.test)}` does not single out the empty patch (it is {'true' if bool(ceval(t.test, {unparse(cnt): 5})) else 'false'} for a patch with records)"
+            why = f"the test `{unparse(test)}` does not single out the empty patch (it is {'true' if bool(ceval(test, {unparse(cnt): 5})) else 'false'} for a patch with records)"
             continue
-        raises_here = any(isinstance(y, ast.Raise) for s_ in t.body for y in ast.walk(s_))
-        coll = [c.func.value.id for s_ in t.body for c in ast.walk(s_) if isinstance(c, ast.Call) and isinstance(c.func, ast.Attribute) and c.func.attr in ("add", "append") and isinstance(c.func.value, ast.Name)]
+        raises_here = any(isinstance(y, ast.Raise) for s_ in body for y in ast.walk(s_))
+        coll = filled if filled is not None else [c.func.value.id for s_ in body for c in ast.walk(s_) if isinstance(c, ast.Call) and isinstance(c.func, ast.Attribute) and c.func.attr in ("add", "append") and isinstance(c.func.value, ast.Name)]
         later = [x for x in ast.walk(fin.node) if isinstance(x, (ast.For, ast.If)) and any(isinstance(y, ast.Raise) for y in ast.walk(x)) and any(isinstance(y, ast.Name) and y.id in coll for y in ast.walk(x.iter if isinstance(x, ast.For) else x.test))]
         if not raises_here and not later:
-            why = f"an empty patch found by `{unparse(t.test)}` neither raises nor is collected for a later raise"
+            why = f"an empty patch found by `{unparse(test)}` neither raises nor is collected for a later raise"
             continue
-        guard_nodes = [n for n in cfg.nodes if n.ast is t or any(n.ast is l for l in later)]
+        guard_nodes = [n for n in cfg.nodes if n.ast is carrier or any(n.ast is l for l in later)]
         if all(any(cfg.dominates(g, pnode) for g in guard_nodes) for pnode in publish):
-            good = t
+            good = test
     if good is not None:
-        res.ok("C09.R9", res.site(cw.methods["finalize"]), f"`{unparse(good.test)}` leads to a raise on every path to the publication of the id list")
+        res.ok("C09.R9", res.site(cw.methods["finalize"]), f"`{unparse(good)}` leads to a raise on every path to the publication of the id list")
     else:
         res.violation("C09.R9", cw.methods["finalize"], fin.node, f"{cw.name}.finalize can publish the patch id list with an empty patch in it: {why}", key_extra="empty-patch-published")
 
